@@ -120,20 +120,126 @@ Section Run.
   Lemma leb_size : forall l : list value, zlen l < 999 -> (stack_size <=? zlen l) = false.
   Proof. intros; apply Z.leb_gt; unfold stack_size; lia. Qed.
 
+  Ltac simp_m :=
+    cbv beta iota;
+    cbn [m_fr m_w mk fr_set_stack fr_set_pc fr_set_blocks fr_set_details fr_set_err fr_code fr_pc fr_live fr_dead fr_top
+         fr_last fr_blocks fr_fblocks fr_dice fr_wod fr_dc fr_details fr_src fr_err w_heap w_pcg w_st w_chain tl
+         v_dead v_last v_details v_ops].
+
   Ltac one_step Hpc Hn Htop :=
     exists 1%nat; intros fuel; change (1 + fuel)%nat with (S fuel);
     rewrite (exec_S fuel _ _ _ _ _ _ Hpc Hn Htop).
 
-  (* ---- pushes *)
-  Lemma step_push_int : forall pc live blocks h j z,
-    0 <= pc -> nth_error prog (Z.to_nat pc) = Some (I OpPushInt (OInt z)) -> zlen live < 999 ->
-    exists j', steps (M pc live blocks h j) (M (pc + 1) (VInt z :: live) blocks h j').
+  Ltac eq_m := unfold M; simp_m; rewrite ?zlen_cons; repeat f_equal; try lia.
+
+  (* m fails with class c, leaving the variables vars *)
+  Definition vars_of_m (m : machine) : vmap := get_map (c_attrs (w_self (m_w m))) (w_heap (m_w m)).
+  Definition fails (m : machine) (c : eclass) (vars : vmap) : Prop :=
+    exists n, forall fuel, exists m', exec (n + S fuel) E m = Fail c m' /\ vars_of_m m' = vars.
+  Lemma steps_fails : forall a b c vars, steps a b -> fails b c vars -> fails a c vars.
   Proof.
-    intros pc live blocks h j z Hpc Hn Htop.
+    intros a b c vars [n1 H1] [n2 H2]. exists (n1 + n2)%nat. intros fuel.
+    destruct (H2 fuel) as [m' [Hm Hv]]. exists m'. split; [|exact Hv].
+    rewrite <- Nat.add_assoc, H1. exact Hm.
+  Qed.
+
+  (* ---- pushes *)
+  Lemma step_push : forall pc live blocks h j ins v,
+    (forall call f m, step call f E ins m = do_push v (m_fr m) (m_w m)) ->
+    0 <= pc -> nth_error prog (Z.to_nat pc) = Some ins -> zlen live < 999 ->
+    exists j', steps (M pc live blocks h j) (M (pc + 1) (v :: live) blocks h j').
+  Proof.
+    intros pc live blocks h j ins v Hs Hpc Hn Htop.
     assert (Hne : zlen live <> stack_size) by (unfold stack_size; lia).
     exists {| v_dead := tl (v_dead j); v_last := v_last j; v_details := v_details j; v_ops := v_ops (counted j) |}.
-    one_step Hpc Hn Hne.
-    cbn [step i_op i_arg M m_fr m_w]. unfold do_push, push. cbn [fr_top].
-    rewrite (leb_size live Htop). cbn. unfold M. rewrite zlen_cons. Show. reflexivity.
+    one_step Hpc Hn Hne. rewrite Hs.
+    cbn [M m_fr m_w]. unfold do_push, push. cbn [fr_top].
+    rewrite (leb_size live Htop). eq_m.
+  Qed.
+
+  Lemma step_mark : forall pc live blocks h j b e,
+    0 <= pc -> nth_error prog (Z.to_nat pc) = Some (I OpMarkDetail (OSpan b e)) -> zlen live < 999 ->
+    exists j', steps (M pc live blocks h j) (M (pc + 1) live blocks h j') /\ v_details j' <> [].
+  Proof.
+    intros pc live blocks h j b e Hpc Hn Htop.
+    assert (Hne : zlen live <> stack_size) by (unfold stack_size; lia).
+    exists {| v_dead := v_dead j; v_last := v_last j; v_details := (b, e) :: v_details j; v_ops := v_ops (counted j) |}.
+    split; [|discriminate].
+    one_step Hpc Hn Hne. cbn [step i_op i_arg M m_fr m_w]. eq_m.
+  Qed.
+
+  (* ---- variables *)
+  Lemma load_scalar : forall call x h ops env,
+    get_map attrs h = inj_env env -> scalar_env env -> mem_s x builtin_names = false ->
+    load_name call E x false {| w_heap := h; w_pcg := pcg0; w_st := st0; w_chain := [{| c_attrs := attrs; c_ops := ops |}] |}
+    = ROk (inj (dlookup x env)) {| w_heap := h; w_pcg := pcg0; w_st := st0; w_chain := [{| c_attrs := attrs; c_ops := ops |}] |}.
+  Proof.
+    intros call x h ops env Hh Hs Hb. unfold load_name. cbn [w_chain length load_walk nth_error c_attrs w_heap].
+    rewrite Hh, mget_inj. unfold dlookup. unfold load_global. rewrite Hb.
+    pose proof (dlookup_scalar x env Hs) as Hsc. unfold dlookup in Hsc.
+    destruct (dget x env) as [v|]; cbn [option_map]; [|reflexivity].
+    destruct v; cbn [inj rbind]; try reflexivity; contradiction.
+  Qed.
+
+  Lemma step_ldd : forall pc live blocks h j x env,
+    get_map attrs h = inj_env env -> scalar_env env -> mem_s x builtin_names = false ->
+    0 <= pc -> nth_error prog (Z.to_nat pc) = Some (I OpLdD (OStr x)) -> zlen live < 999 ->
+    exists j', steps (M pc live blocks h j) (M (pc + 1) (inj (dlookup x env) :: live) blocks h j').
+  Proof.
+    intros pc live blocks h j x env Hh Hs Hb Hpc Hn Htop.
+    assert (Hne : zlen live <> stack_size) by (unfold stack_size; lia).
+    exists {| v_dead := tl (v_dead j); v_last := v_last j;
+              v_details := match v_details j with [] => [(0, 0)] | _ => v_details j end; v_ops := v_ops (counted j) |}.
+    one_step Hpc Hn Hne. cbn [step i_op i_arg M m_fr m_w arg_str].
+    rewrite (load_scalar _ x h _ env Hh Hs Hb).
+    unfold lift, check_err, last_detail. cbn [fr_details v_details counted].
+    destruct (v_details j) eqn:Ed; simp_m; unfold do_push, push; simp_m; rewrite (leb_size live Htop); eq_m.
+  Qed.
+
+  Lemma step_store : forall pc v live blocks h j x,
+    0 <= pc -> nth_error prog (Z.to_nat pc) = Some (I OpStore (OStr x)) -> zlen (v :: live) < 1000 ->
+    exists j', steps (M pc (v :: live) blocks h j)
+                     (M (pc + 1) (v :: live) blocks (set_map attrs (mset x v (get_map attrs h)) h) j').
+  Proof.
+    intros pc v live blocks h j x Hpc Hn Htop.
+    assert (Hne : zlen (v :: live) <> stack_size) by (unfold stack_size; lia).
+    exists (counted j).
+    one_step Hpc Hn Hne. cbn [step i_op i_arg M m_fr m_w arg_str fr_live].
+    unfold store_name, w_set_heap, w_self. simp_m. cbn [hd c_attrs]. eq_m.
+  Qed.
+
+  (* ---- truthiness *)
+  Lemma as_bool_inj : forall fn h v, scalar v -> as_bool fn h (inj v) = truthy v.
+  Proof. intros fn h v Hs; destruct v; cbn; try reflexivity; contradiction. Qed.
+
+  (* ---- unary *)
+  Lemma step_unary : forall pc a live blocks h j o,
+    scalar a -> 0 <= pc -> nth_error prog (Z.to_nat pc) = Some (I (un_opcode o) ONil) -> zlen (inj a :: live) < 1000 ->
+    match un_sem o a with
+    | BV v => exists j', steps (M pc (inj a :: live) blocks h j) (M (pc + 1) (inj v :: live) blocks h j') /\ scalar v
+    | BE c => fails (M pc (inj a :: live) blocks h j) c (get_map attrs h)
+    | BU _ => True
+    end.
+  Proof.
+    intros pc a live blocks h j o Hsa Hpc Hn Htop.
+    assert (Hne : zlen (inj a :: live) <> stack_size) by (unfold stack_size; lia).
+    assert (Hl : zlen live < 999) by (rewrite zlen_cons in Htop; lia).
+    destruct a; try contradiction; cbn [un_sem inj].
+    - (* int *)
+      exists {| v_dead := v_dead j; v_last := LSlot (zlen live + 1 - 1); v_details := v_details j; v_ops := v_ops (counted j) |}.
+      split; [|exact Logic.I].
+      one_step Hpc Hn Hne. destruct o; cbn [un_opcode step i_op i_arg M m_fr m_w with_pop pop fr_live inj];
+        simp_m; unfold do_push, push; simp_m; rewrite zlen_cons;
+        (replace (stack_size <=? zlen live + 1 - 1) with false by (symmetry; apply Z.leb_gt; unfold stack_size; lia));
+        eq_m.
+      Show.
+    - exists 0%nat. intros fuel. eexists. split.
+      + change (0 + S fuel)%nat with (S fuel). rewrite (exec_S fuel _ _ _ _ _ _ Hpc Hn Hne).
+        destruct o; cbn [un_opcode step i_op i_arg M m_fr m_w with_pop pop fr_live]; reflexivity.
+      + reflexivity.
+    - exists 0%nat. intros fuel. eexists. split.
+      + change (0 + S fuel)%nat with (S fuel). rewrite (exec_S fuel _ _ _ _ _ _ Hpc Hn Hne).
+        destruct o; cbn [un_opcode step i_op i_arg M m_fr m_w with_pop pop fr_live]; reflexivity.
+      + reflexivity.
   Qed.
 End Run.
